@@ -112,6 +112,9 @@ def export(config, repo=None, use_cache=True):
     os.makedirs(cache_dir, exist_ok=True)
     cache = os.path.join(cache_dir, "%s-%s-%s.json" % (tag, config, th))
     meta = {"config": config, "tree_hash": th, "repo": repo, "cached": False}
+    nocache = os.environ.get("TWLINT_NOCACHE") == "1"      # self-test workers: nothing is left behind in .work
+    if nocache:
+        use_cache = False
     if use_cache and os.path.exists(cache):
         try:
             with open(cache) as fh:
@@ -121,7 +124,7 @@ def export(config, repo=None, use_cache=True):
         except Exception:
             os.unlink(cache)
     t0 = time.time()
-    target = os.path.join(WORK, "target-%s-%s" % (tag, config))
+    target = os.path.join(os.environ.get("TWLINT_TARGET_BASE") or WORK, "target-%s-%s" % (tag, config))
     os.makedirs(target, exist_ok=True)
     # cargo must not replay a cached result for the workspace member
     fp = os.path.join(target, "debug", ".fingerprint")
@@ -154,6 +157,10 @@ def export(config, repo=None, use_cache=True):
         facts = json.load(fh)
     if facts.get("nonce") != nonce:
         raise BrokenCheck("fact file nonce mismatch")
+    if nocache:
+        os.unlink(out)
+        meta["export_s"] = round(time.time() - t0, 2)
+        return facts, meta
     os.replace(out, cache)
     # prune old cache entries for this repo/config
     for f in os.listdir(cache_dir):
